@@ -338,6 +338,16 @@ def exc_isa(name, parent):
 
 class ClassV:
     def __init__(self, module, node, env, interp):
+        # a class body runs at import time in CPython: calls made while it is evaluated
+        # (field defaults such as `color: Color = Color.fromstring("black")`) are not part of
+        # the call under verification and stay out of its ghost call log
+        interp.defining = getattr(interp, "defining", 0) + 1
+        try:
+            self._init(module, node, env, interp)
+        finally:
+            interp.defining -= 1
+
+    def _init(self, module, node, env, interp):
         self.module = module
         self.node = node
         self.name = node.name
@@ -1467,6 +1477,9 @@ class Interp:
             if a is None:
                 if name == "__name__":
                     return obj.name
+                if name == "__members__" and obj.kind == "enum":
+                    # read-only mapping name -> member, in definition order
+                    return {m.name: m for c in reversed(obj.mro()) for m in c.members}
                 if name == "_fields" and obj.kind == "namedtuple":
                     return tuple(f[0] for f in obj.fields)
                 if name == "_make" and obj.kind == "namedtuple":
